@@ -132,12 +132,12 @@ func runC10(c *Ctx) {
 	c.R.Rule = fmt.Sprintf("%d sequences per backend instance over buckets {bk1,bk2,bk3} with related contents (bk2/secret, bk2/k, bk1/k, …) and %d hostile keys ('.', '..', 'a/../b', '../bk2/k', empty segments, leading dots, backslashes, percent-encoded dots, 300-byte segments, names equal to backend internals (_meta, bucket/x, metadata, buckets, .modtime-resolution), keys that are path prefixes of others); every operation kind (put, get, head, delete, multi-delete, copy, list, bucket create/delete incl. internal names) is framed by a whole-store snapshot (all buckets, all keys, all bodies and ETags; on real-directory instances also the file tree): nothing outside the addressed (bucket,key) set may change, appear, disappear or become unlistable; mem/bolt: every answer is also compared with the Lean model (keys are opaque); fs: a refusal is allowed; non-trivial = distinct (backend, operation, key)", nSeq, len(keys))
 	for _, kind := range c.kinds(impl.AllKinds) {
 		for s := 0; s < nSeq; s++ {
-			c10Sequence(c, kind, keys)
+			c10Sequence(c, kind, keys, s)
 		}
 	}
 }
 
-func c10Sequence(c *Ctx, kind string, keys []string) {
+func c10Sequence(c *Ctx, kind string, keys []string, seqIdx int) {
 	inst, err := impl.New(kind, c.Tmp)
 	if err != nil {
 		c.mismatch(Mismatch{Kind: "model", Backend: kind, Finger: "setup", Impl: err.Error()})
@@ -179,6 +179,53 @@ func c10Sequence(c *Ctx, kind string, keys []string) {
 		for _, k := range []string{"k", "secret", "dir/file"} {
 			l, o := r.Put(b, k, nil, []byte("orig:"+b+"/"+k))
 			judge(l, o, "setup")
+		}
+	}
+	// deterministic (first sequences of every backend): sibling keys that differ only in '/', '_' (and
+	// '\\' off the file systems) are written, overwritten and deleted one after the other; the others must not move
+	if seqIdx < 3 {
+		sibs := []string{"sib/ling", "sib_ling"}
+		if !inst.IsFs() {
+			sibs = append(sibs, "sib\\ling")
+		}
+		b := buckets[0]
+		for round := 0; round < 2; round++ {
+			for _, k := range sibs {
+				before := takeSnap(r, buckets)
+				line, obs := r.Put(b, k, map[string]string{"X-Amz-Meta-Sib": k}, []byte(fmt.Sprintf("sib:%s:%d", k, round)))
+				after := takeSnap(r, buckets)
+				c.R.Evaluations++
+				if v := frameViolations(before, after, map[string]bool{b + "\x00" + k: true}, ""); len(v) > 0 {
+					c.mismatch(Mismatch{Kind: "spec", Backend: kind, Case: append(append([]string{}, r.Lines...), line), Impl: obs + " ; " + strings.Join(v, " ; "),
+						Spec: "writing " + k + " changes no sibling key", Finger: "c10:frame:sibling-keys"})
+					return
+				}
+				judge(line, obs, "sibling-put")
+				// the metadata of every sibling is its own
+				for _, k2 := range sibs {
+					_, g := r.Get(b, k2)
+					if strings.HasPrefix(g, "obj ") && !strings.Contains(g, hx("X-Amz-Meta-Sib")+"="+hx(k2)) {
+						c.mismatch(Mismatch{Kind: "spec", Backend: kind, Case: append(append([]string{}, r.Lines...), line), Impl: trunc(g, 200),
+							Spec: "key " + k2 + " carries its own headers", Finger: "c10:frame:sibling-keys"})
+						return
+					}
+				}
+			}
+		}
+		before := takeSnap(r, buckets)
+		line, obs := r.Del(b, sibs[1])
+		after := takeSnap(r, buckets)
+		if v := frameViolations(before, after, map[string]bool{b + "\x00" + sibs[1]: true}, ""); len(v) > 0 {
+			c.mismatch(Mismatch{Kind: "spec", Backend: kind, Case: append(append([]string{}, r.Lines...), line), Impl: obs + " ; " + strings.Join(v, " ; "),
+				Spec: "deleting " + sibs[1] + " changes no sibling key", Finger: "c10:frame:sibling-keys"})
+			return
+		}
+		judge(line, obs, "sibling-del")
+		_, g := r.Get(b, sibs[0])
+		if !strings.Contains(g, hx("X-Amz-Meta-Sib")+"="+hx(sibs[0])) {
+			c.mismatch(Mismatch{Kind: "spec", Backend: kind, Case: append(append([]string{}, r.Lines...), line), Impl: trunc(g, 200),
+				Spec: "key " + sibs[0] + " keeps its headers when its sibling is deleted", Finger: "c10:frame:sibling-keys"})
+			return
 		}
 	}
 	n := 12 + c.Rng.Intn(14)
